@@ -8,6 +8,7 @@ The declarations can be permuted; the model input (name, fastly?, explicit scope
 derived here, independently of linter/scope_inference.go.
 """
 import itertools
+import re
 from gen import vclgen
 
 SC = {"recv": 0x1, "hash": 0x10, "hit": 0x100, "miss": 0x1000, "pass": 0x10000, "fetch": 0x100000,
@@ -243,7 +244,10 @@ class LintGen:
             return "{ %s %s }" % (t1, t2), c1 + c2
         self._c("item:filler")
         s = self.filler.stmt(1).replace("\n", " ").strip()
-        if "goto" in s or "include" in s or "call " in s:
+        # a filler must not call a bare builtin function (regsub, substr, urlencode ...): a subroutine may be
+        # declared under such a name (REJECTED), and extractCallees would then see an edge the model input lacks
+        calls_rejected = any(re.search(r"(?<![\w.])%s\s*\(" % re.escape(n), s) for n in REJECTED)
+        if "goto" in s or "include" in s or "call " in s or calls_rejected:
             s = 'set req.http.F = "f";'
         return s, None if False else self._filler_callees(s)
 
